@@ -293,6 +293,7 @@ pub fn synth(spec: &FrameSpec, dict: Option<&Dict>, over_long: bool) -> SynthOut
 
     let nblocks = spec.blocks.len();
     let empty_frame = nblocks == 0;
+    let mut max_stored = 0usize;
     for (i, b) in spec.blocks.iter().enumerate() {
         let last = i + 1 == nblocks;
         match b {
@@ -311,6 +312,7 @@ pub fn synth(spec: &FrameSpec, dict: Option<&Dict>, over_long: bool) -> SynthOut
                 // (a body above 128 KiB makes the frame invalid; the literal cap in pass 1 keeps
                 // that rare and the reference decoder arbitrates)
                 let body = encode_compressed_block(c, eb, &mut st);
+                max_stored = max_stored.max(body.len());
                 push_block_header(&mut out, last, 2, body.len());
                 out.extend_from_slice(&body);
             }
@@ -318,6 +320,20 @@ pub fn synth(spec: &FrameSpec, dict: Option<&Dict>, over_long: bool) -> SynthOut
     }
     if empty_frame {
         push_block_header(&mut out, true, 0, 0);
+    }
+    if !over_long {
+        // Block_Maximum_Size = min(Window_Size, 128 KiB) also bounds the *stored* size of a block
+        // (Window_Size = content size in single-segment frames): widen the window until it fits.
+        let limit = if spec.single_segment { total } else { window }.min(BLOCK_MAX as u64);
+        if max_stored as u64 > limit && (spec.single_segment || (spec.window_desc >> 3) < 31) {
+            let mut s2 = spec.clone();
+            if s2.single_segment {
+                s2.single_segment = false;
+            } else {
+                s2.window_desc = s2.window_desc.wrapping_add(8);
+            }
+            return synth(&s2, dict, over_long);
+        }
     }
     if spec.checksum {
         out.extend_from_slice(&xxh64::checksum32(&content).to_le_bytes());
